@@ -692,12 +692,22 @@ func (st *tunnelClientStream) CloseSend() error {
 		return errors.New("already half-closed")
 	}
 	st.halfClosed = true
-	return st.stream.Send(&tunnelpb.ClientToServer{
+	err := st.stream.Send(&tunnelpb.ClientToServer{
 		StreamId: st.streamID,
 		Frame: &tunnelpb.ClientToServer_HalfClose{
 			HalfClose: &emptypb.Empty{},
 		},
 	})
+	if err != nil {
+		if doneErr := st.loadDone(); doneErr != nil {
+			// The RPC finished while the half-close was waiting to be sent
+			// (for example, the server refused the stream and then the
+			// tunnel went away). As in SendMsg, report how the RPC
+			// finished, not the failure of the underlying stream.
+			return doneErr
+		}
+	}
+	return err
 }
 
 func (st *tunnelClientStream) loadDone() error {
